@@ -8,28 +8,32 @@ use syn::Ident;
 use crate::wgsl::vertex_entry_structs;
 
 pub fn fragment_target_count(module: &Module, f: &Function) -> usize {
+    // Color targets are indexed by location.
+    // Include all targets up to the highest location to make each output addressable.
     match &f.result {
         Some(r) => match &r.binding {
-            Some(b) => {
-                // Builtins don't have render targets.
-                if matches!(b, naga::Binding::Location { .. }) {
-                    1
-                } else {
-                    0
-                }
-            }
+            Some(b) => binding_target_count(b),
             None => {
                 // Fragment functions should return a single variable or a struct.
                 match &module.types[r.ty].inner {
                     naga::TypeInner::Struct { members, .. } => members
                         .iter()
-                        .filter(|m| matches!(m.binding, Some(naga::Binding::Location { .. })))
-                        .count(),
+                        .filter_map(|m| m.binding.as_ref().map(binding_target_count))
+                        .max()
+                        .unwrap_or(0),
                     _ => 0,
                 }
             }
         },
         None => 0,
+    }
+}
+
+fn binding_target_count(binding: &naga::Binding) -> usize {
+    match binding {
+        naga::Binding::Location { location, .. } => *location as usize + 1,
+        // Builtins don't have render targets.
+        naga::Binding::BuiltIn(_) => 0,
     }
 }
 
